@@ -10,7 +10,8 @@ From LV Require Import Base.Bytes Base.Sx Model.Obj Model.Writer Model.Parser Mo
   Model.Loader Proofs.RealProofs Proofs.ObjectRtProofs.
 From LV Require Model.A85 Model.AsciiHex Spec.AsciiHexSpec Proofs.AsciiHexProofs.
 From LV Require Import Proofs.SpellingNumProofs Proofs.SpellingObjProofs Proofs.SpellingFileProofs Proofs.SpellingProofsLitRaw.
-From LV Require Model.Utf Proofs.LoadsFrameProofs Proofs.LoadsTableProofs Proofs.LoadsStreamProofs.
+From LV Require Model.Utf Proofs.LoadsFrameProofs Proofs.LoadsTableProofs Proofs.LoadsStreamProofs Proofs.LoadsFilterProofs.
+From LV Require Model.LoaderExt Model.StreamFilt Spec.StreamCodecSpec Model.Png.
 Local Open Scope N_scope.
 
 (* (1) Cross-reference streams.  For ALL field widths (0 = field absent, any positive width, not all three
@@ -507,6 +508,119 @@ Proof.
     + rewrite Hx, Hs. split; [unfold u32_max; repeat split; lia|]. vm_compute. lia.
 Qed.
 
+(* THE FILTER CHAIN of structural streams.  [decompress_ref] is lopdf's Stream::decompress (Model/StreamFilt.v, C09's model
+   of filters / DecodeParms / decompress_predictor / set_content) run on the GALLINA decoders of the standards: Spec/Inflate.v
+   (RFC 1950/1951, C09_inflate_stored), Model/A85.v, Model/AsciiHex.v, Model/Png.v.  Every encoding the reference writer applies
+   (apply_filter): ASCII85, ASCIIHex (any case, white-space), stored-block Flate with any block size, ASCII85 around Flate;
+   Filter as a name or a one-element array; with Flate a PNG predictor -- Predictor 10..15, the row filter chosen PER ROW
+   among the five types, Colors 1..4 x BitsPerComponent 8 / 16 when the row width is a whole number of such pixels (else one
+   byte per pixel), Colors / BitsPerComponent written or left to their defaults, DecodeParms as a dictionary or as an array
+   parallel to the filters -- is decoded to the raw data, for data that consists of whole rows of its natural width [w]
+   (a cross-reference stream: the entry width). *)
+Theorem C02_filter_chain_decodes :
+  forall (f : sfilter) (w m : nat) (arr : bool) (raw : bytes) (D : dict),
+    f <> SfNone -> (0 < w)%nat -> raw <> [] -> length raw = (m * w)%nat -> N.of_nat w <= Png.USIZE_MAX ->
+    dict_get D K_Filter = dict_get (snd (apply_filter f (N.of_nat w) arr raw)) K_Filter ->
+    dict_get D K_DecodeParms = dict_get (snd (apply_filter f (N.of_nat w) arr raw)) K_DecodeParms ->
+    StreamFilt.decompressed_content StreamCodecSpec.gallina_inflate StreamCodecSpec.gallina_lzw
+      {| StreamFilt.s_dict := D; StreamFilt.s_content := fst (apply_filter f (N.of_nat w) arr raw) |} = A85.Ok raw.
+Proof. exact LoadsFilterProofs.chain_decodes. Qed.
+
+(* C02_loads for a cross-reference stream UNDER ANY OF THESE FILTER CHAINS, against c01's extended reader
+   (Model/LoaderExt.v load_ext, conservative over Loader.load by C01_loader_ext_conservative) with Stream::decompress :=
+   decompress_ref: everything C02_loads_stream_partial says, for every style whose cross-reference stream carries a filter.
+   The loaded trailer is the stream dictionary as read back without Filter, DecodeParms, Length, W, Index
+   (C02_filtered_trailer_reading); the cross-reference stream object itself is kept as it is in the file (encoded).
+   PARTIAL with respect to C02_full: no object streams, Length direct (top_ok); (b)-(d) as before; the widths sum is a
+   machine integer (it is at most 24 for files below 4 GiB unless the style asks for wider fields). *)
+Theorem C02_loads_stream_filtered_partial :
+  forall (st : fstyle) (a : adoc) (x : xsstyle) (file : bytes),
+    s_xref st = XStream x -> s_ostms st = [] -> xs_filter x <> SfNone -> ref_write st a = Some file ->
+    Forall LoadsTableProofs.top_ok (LoadsTableProofs.tops st a) -> Utf.utf8_decode (a_version a) <> None ->
+    (spell_wf (ODict (LoadsStreamProofs.xdf st a x)) (i_obj (xs_istyle x)) /\
+     (nest (ODict (LoadsStreamProofs.xdf st a x)) <= MAX_DEPTH)%nat /\
+     dict_get (a_trailer a) K_Prev = None /\ dict_get (a_trailer a) K_Encrypt = None /\
+     dict_get (a_trailer a) K_Filter = None /\ dict_get (a_trailer a) K_Index = None) ->
+    dict_get (a_trailer a) K_DecodeParms = None ->
+    (LoadsTableProofs.xpos st a <= u32_max /\ LoadsStreamProofs.sizeS a x <= u32_max /\ 25 < LoadsTableProofs.xpos st a) ->
+    N.of_nat (LoadsStreamProofs.w0' st a x + LoadsStreamProofs.w1' st a x + LoadsStreamProofs.w2' st a x) <= Png.USIZE_MAX ->
+    (9 + length (LoadsTableProofs.sx_mid (s_sx_eol1 st) (s_sx_sp1 st) (LoadsTableProofs.xpos st a) (s_sx_sp2 st) (s_sx_eol2 st)) <= 25)%nat ->
+    exists d, LoaderExt.load_ext LoadsFilterProofs.decompress_ref LoadsFilterProofs.can_ref file = LOk d XTStream /\
+      d_version d = a_version a /\
+      d_trailer d = LoadsStreamProofs.t0F st a x (snd (LoadsStreamProofs.xs_enc st a x)) (fst (LoadsStreamProofs.xs_enc st a x)) /\
+      (forall tp, In tp (LoadsTableProofs.tops st a) ->
+                  lookup (d_objects d) (fst (fst tp)) = Some (LoadsTableProofs.loaded_top tp)) /\
+      lookup (d_objects d) (xs_id x, 0) =
+        Some (stream_new (LoadsStreamProofs.dd st a x (snd (LoadsStreamProofs.xs_enc st a x)) (fst (LoadsStreamProofs.xs_enc st a x)))
+                         (fst (LoadsStreamProofs.xs_enc st a x))) /\
+      (forall id o, lookup (d_objects d) id = Some o ->
+                    (exists tp, In tp (LoadsTableProofs.tops st a) /\ fst (fst tp) = id) \/ id = (xs_id x, 0)).
+Proof. exact LoadsStreamProofs.loads_stream_filtered_file. Qed.
+
+Theorem C02_filtered_trailer_reading :
+  forall (st : fstyle) (a : adoc) (x : xsstyle) (k : bytes),
+    spell_wf (ODict (LoadsStreamProofs.xdf st a x)) (i_obj (xs_istyle x)) ->
+    dict_get (LoadsStreamProofs.t0F st a x (snd (LoadsStreamProofs.xs_enc st a x)) (fst (LoadsStreamProofs.xs_enc st a x))) k =
+    if bytes_eqb k K_Index || bytes_eqb k K_W || bytes_eqb k Obj.K_Length then None
+    else if bytes_eqb k K_Filter || bytes_eqb k K_DecodeParms then None
+    else dict_get (denote_dict (LoadsStreamProofs.xdf st a x) (dict_sts (i_obj (xs_istyle x)))) k.
+Proof. exact LoadsStreamProofs.filtered_trailer_reading. Qed.
+
+Definition ex_xsstyle_f : xsstyle :=
+  {| xs_id := 9; xs_w := (0%nat, 1%nat, 0%nat); xs_secs := [(3, 1); (7, 1); (9, 1)]; xs_omit_index := false;
+     xs_filter := SfA85Flate 3 (Some {| p_pred := 2; p_cols := 0; p_types := [4; 1; 3]; p_colors := 1; p_bpc16 := false; p_explicit := true |});
+     xs_array := true; xs_istyle := xs_istyle ex_xsstyle |}.
+Definition ex_fstyle_f : fstyle :=
+  {| s_junk := s_junk ex_fstyle; s_hdr_eol := ECRLF; s_binary := Some ([xe2; xe3], ECR); s_order := [7; 3];
+     s_objs := s_objs ex_fstyle; s_ostms := []; s_xref := XStream ex_xsstyle_f;
+     s_sx_eol1 := ECRLF; s_sx_sp1 := 1; s_sx_sp2 := 2; s_sx_eol2 := ECR; s_final_eol := Some ELF |}.
+Definition ex_xdf : dict :=
+  [(bs "Type", OName (bs "XRef")); (bs "Size", OInt 10); (bs "W", OArr [OInt 0; OInt 1; OInt 1]);
+   (bs "Index", OArr [OInt 3; OInt 1; OInt 7; OInt 1; OInt 9; OInt 1]); (bs "Root", ORef 7 0);
+   (bs "Filter", OArr [OName (bs "ASCII85Decode"); OName (bs "FlateDecode")]);
+   (bs "DecodeParms", OArr [ONull; ODict [(bs "Predictor", OInt 12); (bs "Columns", OInt 1); (bs "Colors", OInt 2);
+                                         (bs "BitsPerComponent", OInt 8)]]);
+   (bs "Length", OInt 40)].
+
+(* non-vacuity: the same file with the cross-reference stream (W [0 1 1], rows of 2 bytes) written through a PNG
+   predictor (Predictor 12, Colors 2, row types Paeth / Sub / Average), stored-block zlib with blocks of 4 bytes and
+   ASCII85, Filter and DecodeParms as arrays *)
+Theorem C02_example_loads_stream_filtered :
+  ref_write ex_fstyle_f ex_adoc <> None /\ xs_filter ex_xsstyle_f <> SfNone /\
+  LoadsStreamProofs.xdf ex_fstyle_f ex_adoc ex_xsstyle_f = ex_xdf /\
+  Forall LoadsTableProofs.top_ok (LoadsTableProofs.tops ex_fstyle_f ex_adoc) /\
+  (spell_wf (ODict (LoadsStreamProofs.xdf ex_fstyle_f ex_adoc ex_xsstyle_f)) (i_obj (xs_istyle ex_xsstyle_f)) /\
+   (nest (ODict (LoadsStreamProofs.xdf ex_fstyle_f ex_adoc ex_xsstyle_f)) <= MAX_DEPTH)%nat /\
+   dict_get (a_trailer ex_adoc) K_Prev = None /\ dict_get (a_trailer ex_adoc) K_Encrypt = None /\
+   dict_get (a_trailer ex_adoc) K_Filter = None /\ dict_get (a_trailer ex_adoc) K_Index = None) /\
+  dict_get (a_trailer ex_adoc) K_DecodeParms = None /\
+  (LoadsTableProofs.xpos ex_fstyle_f ex_adoc <= u32_max /\ LoadsStreamProofs.sizeS ex_adoc ex_xsstyle_f <= u32_max /\
+   25 < LoadsTableProofs.xpos ex_fstyle_f ex_adoc) /\
+  N.of_nat (LoadsStreamProofs.w0' ex_fstyle_f ex_adoc ex_xsstyle_f + LoadsStreamProofs.w1' ex_fstyle_f ex_adoc ex_xsstyle_f +
+            LoadsStreamProofs.w2' ex_fstyle_f ex_adoc ex_xsstyle_f) <= Png.USIZE_MAX /\
+  (9 + length (LoadsTableProofs.sx_mid (s_sx_eol1 ex_fstyle_f) (s_sx_sp1 ex_fstyle_f) (LoadsTableProofs.xpos ex_fstyle_f ex_adoc)
+                 (s_sx_sp2 ex_fstyle_f) (s_sx_eol2 ex_fstyle_f)) <= 25)%nat.
+Proof.
+  assert (Hx : LoadsTableProofs.xpos ex_fstyle_f ex_adoc = 117) by (vm_compute; reflexivity).
+  assert (Hs : LoadsStreamProofs.sizeS ex_adoc ex_xsstyle_f = 10) by (vm_compute; reflexivity).
+  assert (Hd : LoadsStreamProofs.xdf ex_fstyle_f ex_adoc ex_xsstyle_f = ex_xdf) by (vm_compute; reflexivity).
+  split; [vm_compute; discriminate|]. split; [discriminate|]. split; [exact Hd|]. split.
+  - exact (proj1 (proj2 C02_example_loads_table)).
+  - split.
+    + rewrite Hd. split.
+      * cbn.
+        repeat match goal with
+               | |- _ /\ _ => split
+               | |- NoDup _ => repeat (constructor; [cbn; intuition discriminate|]); constructor
+               | |- True => exact I
+               | |- _ = true => reflexivity
+               | |- _ <= _ => unfold u32_max, u16_max; lia
+               end.
+      * split; [vm_compute; lia|]. repeat split; reflexivity.
+    + split; [reflexivity|]. rewrite Hx, Hs. split; [unfold u32_max; repeat split; lia|].
+      split; [vm_compute; discriminate|]. vm_compute. lia.
+Qed.
+
 (* the frame: Reader::read reduced to its pieces, for any file junk ++ F *)
 Theorem C02_load_frame :
   forall (junk F pre xr : bytes) version x0 t0 objs,
@@ -658,6 +772,10 @@ Print Assumptions C02_loads_table_partial.
 Print Assumptions C02_loads_stream_partial.
 Print Assumptions C02_stream_trailer_reading.
 Print Assumptions C02_example_loads_stream.
+Print Assumptions C02_filter_chain_decodes.
+Print Assumptions C02_loads_stream_filtered_partial.
+Print Assumptions C02_filtered_trailer_reading.
+Print Assumptions C02_example_loads_stream_filtered.
 Print Assumptions C02_load_frame.
 Print Assumptions C02_example_loads_table.
 Print Assumptions C02_example_object.
